@@ -450,6 +450,8 @@ class GenCfg:
     inheritance: bool = False
     docs: bool = False
     foreign: bool = False
+    twins: bool = False  # modules with the same name (and some equal declaration names) in different packages
+    twin_module_reexports: bool = False  # star / module-alias re-exports of a module whose name another module shares
 
 
 def random_pkg(rng, cfg: GenCfg) -> Pkg:
@@ -490,6 +492,20 @@ def random_pkg(rng, cfg: GenCfg) -> Pkg:
                 if not e.name.startswith("_"):
                     public_classes.append((m, e.name))  # enums are types too
         pkg.modules.append(m)
+    if cfg.twins and len(pkgs) > 1:
+        for m in list(pkg.modules):
+            if rng.random() < 0.35:
+                others = [p for p in pkgs if p != m.pkg and not any(x.pkg == p and x.name == m.name for x in pkg.modules)]
+                if not others:
+                    continue
+                twin = Mod(pkg=rng.choice(others), name=m.name)
+                for d in m.decls:
+                    if isinstance(d, Fn) and rng.random() < 0.7:
+                        twin.decls.append(Fn(d.name, [Param(names.fresh("tw"), "int")], "int"))
+                    elif isinstance(d, Cls) and rng.random() < 0.7:
+                        twin.decls.append(Cls(d.name, methods=[Fn(f.name, [Param(names.fresh("tw"), "int")], "int", role="inst") for f in d.methods[:2] if f.role == "inst"], cattrs=[Attr(names.fresh("twa"), "int", "1")]))
+                twin.decls.append(Fn(names.fresh("f")))
+                pkg.modules.append(twin)
     # re-exports
     for m in pkg.modules:
         for d in m.decls:
@@ -497,6 +513,10 @@ def random_pkg(rng, cfg: GenCfg) -> Pkg:
                 continue  # enums carry no re-export data in the tool's model; keep them where they are
             if rng.random() < cfg.p_reexport:
                 form = rng.choice(cfg.reexport_forms)
+                if not cfg.twin_module_reexports and sum(1 for x in pkg.modules if x.name == m.name) > 1:
+                    # re-exports written relative to the package, and whole-module re-exports, are matched by the bare
+                    # module name (recorded finding): same-named modules only get absolute name re-exports
+                    form = rng.choice(["name-abs-parent", "alias-abs-parent", "name-abs-ancestor"])
                 _add_reexport(rng, names, pkg, m, d, form)
     return pkg
 
@@ -511,6 +531,8 @@ def _add_reexport(rng, names, pkg: Pkg, m: Mod, d, form: str) -> None:
         else:
             target = m.pkg[: rng.randint(1, len(m.pkg) - 1)]
     lst = pkg.inits.setdefault(tuple(target), [])
+    if kind in ("name", "alias") and any(r.form == "name" and (r.alias or r.name) == d.name for r in lst):
+        return  # one public name per package namespace: a second import of the same name would shadow the first
     if kind == "name":
         lst.append(Reexport("name", m.qname, d.name, None, style))
     elif kind == "alias":
